@@ -73,21 +73,31 @@ Modelled == <<
     Dep("no", FALSE, FALSE, FALSE, "all"),
     Dep("descend", TRUE, FALSE, TRUE, "all"),
     Dep("no", FALSE, TRUE, FALSE, "cse"),             \* DependencyMapper: the mix-in only
-    [m |-> "subst", scope |-> "all", map |-> SubstMap]
+    [m |-> "subst", scope |-> "all", map |-> SubstMap],
+    \* round 2: results are foreign objects with their own equality protocol; a cache hit
+    \* must hand them back without ever consulting it
+    [m |-> "probe", scope |-> "all", eq |-> "alleq"],        \* == everything, != nothing
+    [m |-> "probe", scope |-> "all", eq |-> "elementwise"]   \* comparisons give a non-boolean
 >>
 \* kinds that take no extra arguments at all
 NoArgKinds == {"subst"}
-ModelledNames == { Modelled[i].m : i \in 1..Len(Modelled) }
+\* ("bcoll", the stock Collector, is modelled for the optimizer part only)
+ModelledNames == { Modelled[i].m : i \in 1..Len(Modelled) } \cup {"bcoll"}
 
 \* environments of the evaluation mappers (materialised by the driver from here)
 FnV(n) == [k |-> "fn", name |-> n]
 ObjV(n) == [k |-> "obj", name |-> n]
 TupV(s) == [k |-> "tup", items |-> s]
+\* a numpy array (vectorised evaluation): its comparisons are elementwise, so a cached
+\* array must never be compared with anything by the look-aside (round 2)
+ArrV(s) == [k |-> "arr", items |-> s]
 Envs == <<
   [x |-> IntV(2), y |-> IntV(5), f |-> FnV("f"),
    t |-> TupV(<< IntV(10), IntV(20), FracV(5, 2) >>), o |-> ObjV("o1")],
   [x |-> FltV(3, 2), y |-> BoolV(TRUE), f |-> FnV("g"),
-   t |-> TupV(<< IntV(10), IntV(20) >>), o |-> ObjV("o2")]
+   t |-> TupV(<< IntV(10), IntV(20) >>), o |-> ObjV("o2")],
+  [x |-> ArrV(<< IntV(1), IntV(2), IntV(3) >>), y |-> ArrV(<< FltV(1, 2), FltV(2, 1), FltV(4, 1) >>),
+   f |-> FnV("f"), t |-> TupV(<< IntV(10), IntV(20) >>), o |-> ObjV("o1")]
 >>
 
 \* pairs that are driven and judged against their counterpart only
@@ -95,6 +105,8 @@ Unmodelled == <<
     [m |-> "eval", scope |-> "all", env |-> 1],
     [m |-> "eval", scope |-> "all", env |-> 2],
     [m |-> "eval", scope |-> "cse", env |-> 1],       \* EvaluationMapper: the mix-in only
+    [m |-> "eval", scope |-> "all", env |-> 3],       \* array-valued results
+    [m |-> "eval", scope |-> "cse", env |-> 3],
     [m |-> "ncount", scope |-> "all"],
     [m |-> "flop", scope |-> "all"],
     [m |-> "str", scope |-> "all"],
@@ -104,7 +116,7 @@ Unmodelled == <<
 >>
 \* which extra arguments a pair accepts: "full" (positional and keyword), "pos", "none"
 ArgCap(mk) == CASE mk.scope = "cse" /\ mk.m \in {"ident", "dep"} -> "pos"   \* the mix-in takes *args only
-                [] mk.m \in {"ident", "coll", "count", "walk"} -> "full"
+                [] mk.m \in {"ident", "coll", "count", "walk", "probe"} -> "full"
                 [] mk.m = "dep" -> "pos"
                 [] OTHER -> "none"
 ArgFits(mk, a) == CASE ArgCap(mk) = "full" -> TRUE
